@@ -16,11 +16,11 @@ def run(tier, seed):
           tlc_mc("MC_MasterServer.tla", "MC_MasterServer_p.cfg", workers=4, name="c16_mcp", coverage=False)]
     reps = []
     gens = []
-    for mode in ("f", "p"):
+    for mode in ("f", "p", "b"):
         b = f"{w}/beh_{mode}.ndjson"
         gens.append(tlc_gen("MC_MasterServer.tla", cfg_for(tier, f"Gen_MasterServer_{mode}.cfg"), "BEHAVIOUR", b, name=f"c16_gen{mode}", timeout=1800))
-        r = vhr(["master", "--in", b], (2 if quick else 6) if mode == "f" else (5 if quick else 40), seed, tier, name=f"c16{mode}")
-        v.add_report(r, "filters" if mode == "f" else "paging")
+        r = vhr(["master", "--in", b], {"f": 2 if quick else 6, "p": 5 if quick else 40, "b": 6 if quick else 60}[mode], seed, tier, name=f"c16{mode}")
+        v.add_report(r, {"f": "filters", "p": "paging", "b": "large filter groups"}[mode])
         reps.append(r)
     # implementation -> specification: recorded random page sequences (1-8 pages, small host pool) validated by TLC
     tf = f"{w}/master_trace.ndjson"
